@@ -244,6 +244,58 @@ func registerNd(e *Engine) {
 		}
 		return x.intTerm(n)
 	}
+	I[p+"Concurrently"] = func(x *Exec, caller *frame, fn *ssa.Function, args []Value) Value {
+		fns := args[0].(Slice).C
+		reach := make([]map[interface{}]bool, len(fns))
+		count := map[interface{}]int{}
+		for i, c := range fns {
+			reach[i] = map[interface{}]bool{}
+			if cl, ok := c.V.(*Closure); ok {
+				for _, e := range cl.Env {
+					x.collectMutable(e, reach[i], map[interface{}]bool{})
+				}
+			}
+			for k := range reach[i] {
+				count[k]++
+			}
+		}
+		viol := 0
+		for i, c := range fns {
+			base := x.allocSeq
+			x.trackWrite = true
+			x.writeLog, x.mapWrites = nil, nil
+			x.callValue(c.V, nil, caller)
+			x.trackWrite = false
+			check := func(k interface{}, a *Alloc) {
+				switch {
+				case a != nil && a.Glob != "":
+					viol++
+					x.notes = append(x.notes, "write to package-level variable "+a.Glob)
+				case count[k] > 1:
+					viol++
+					x.notes = append(x.notes, fmt.Sprintf("write to memory shared between concurrent calls (allocated at %s)", allocSite(a)))
+				case (a == nil || a.ID <= base) && !reach[i][k]:
+					viol++
+					x.notes = append(x.notes, fmt.Sprintf("write to pre-existing memory not reachable from the call's own arguments (allocated at %s)", allocSite(a)))
+				}
+			}
+			seen := map[interface{}]bool{}
+			for _, cell := range x.writeLog {
+				if !seen[cell] {
+					seen[cell] = true
+					check(cell, cell.A)
+				}
+			}
+			for _, m := range x.mapWrites {
+				if !seen[m] {
+					seen[m] = true
+					check(m, m.A)
+				}
+			}
+		}
+		x.writeLog, x.mapWrites = nil, nil
+		return x.intTerm(viol)
+	}
 	I[p+"ExportPC"] = func(x *Exec, caller *frame, fn *ssa.Function, args []Value) Value {
 		name := x.concreteStr(args[0], "export name")
 		x.res.Exports = append(x.res.Exports, PathExport{Name: name, PC: append([]*Term{}, x.pc...)})
@@ -293,19 +345,34 @@ func (x *Exec) collectMutable(v Value, out map[interface{}]bool, seen map[interf
 		}
 	case Struct:
 		for i := range t {
+			out[&t[i]] = true // field cells are the targets of field stores
 			x.collectMutable(t[i].V, out, seen)
 		}
 	case Array:
 		for i := range t {
+			out[&t[i]] = true
 			x.collectMutable(t[i].V, out, seen)
 		}
 	case Iface:
 		if t.T != nil {
 			x.collectMutable(t.V, out, seen)
 		}
+	case *Closure:
+		if t != nil {
+			for _, e := range t.Env {
+				x.collectMutable(e, out, seen)
+			}
+		}
 	case Tuple:
 		for _, e := range t {
 			x.collectMutable(e, out, seen)
 		}
 	}
+}
+
+func allocSite(a *Alloc) string {
+	if a == nil {
+		return "?"
+	}
+	return a.Site
 }
